@@ -62,6 +62,14 @@ func (q mQuote) lib() *bt.FeeQuote {
 	case 2:
 		std.FeeType, data.FeeType = bt.FeeTypeData, bt.FeeTypeStandard
 	}
+	// the relay fee is informational (what a miner relays, not what it mines): every fee rule is
+	// stated in terms of the mining fee; a third of the quotes carry relay fees that differ from it
+	switch (q.StdSat*7 + q.DataSat*3 + q.StdBytes) % 3 {
+	case 1:
+		std.RelayFee, data.RelayFee = bt.FeeUnit{Satoshis: q.StdSat/2 + 1, Bytes: q.StdBytes}, bt.FeeUnit{Satoshis: q.DataSat*3 + 2, Bytes: q.DataBytes + 5}
+	case 2:
+		std.RelayFee, data.RelayFee = bt.FeeUnit{}, bt.FeeUnit{Satoshis: 0, Bytes: 1}
+	}
 	if q.StdSat == q.DataSat && q.StdBytes == q.DataBytes && (q.StdSat+q.StdBytes)%2 == 0 {
 		// a flat rate: ONE Fee object is filed under both types
 		data = std
@@ -286,6 +294,12 @@ func (t *mTx) outCount() int {
 // shape expands the runs.
 func (t *mTx) shape() *gen.Shape {
 	s := &gen.Shape{Version: t.Version, LockTime: t.LockTime, Ins: t.Ins}
+	// a lone input may spend the outpoint (00…00, n) with the default sequence number - an
+	// ordinary coin of a transaction whose id happens to be all zeroes, not a coinbase
+	if len(t.Ins) == 1 && len(t.Ins[0].Unlock) == 0 && (t.Version+t.LockTime)%4 == 1 {
+		s.Ins = []gen.In{t.Ins[0]}
+		s.Ins[0].TxID, s.Ins[0].Seq = make([]byte, 32), 0xffffffff
+	}
 	s.Outs = make([]gen.Out, 0, t.outCount())
 	for _, g := range t.Outs {
 		k := g.Repeat
